@@ -45,8 +45,11 @@ class HistCase:
         return "\n".join(s) + "\n"
 
     def model_text(self, fixed=True):
+        # flags: 1 = the fixed tree (rz = true); 2 = also run the programs of Gen_EField.v and compare all buffers
+        # (proved equal in Proofs/EFieldGenP.v; the run cross-checks the extraction on every fifth case, N <= 64)
+        flags = (1 if fixed else 0) | (2 if (fixed and getattr(self, "gencheck", False)) else 0)
         s = ["hist %s %d %d %d %d %s %d %d" % (self.cid, self.n, self.nb, self.N, self.sp,
-                                               " ".join(map(str, self.buckets)), 1 if fixed else 0, len(self.ops))]
+                                               " ".join(map(str, self.buckets)), flags, len(self.ops))]
         for k, cut, p in self.ops:
             s.append("%s %s %s" % (k, qtok(Fraction(cut)), " ".join(qtok(Fraction(v)) for v in p)))
         return "\n".join(s) + "\n"
@@ -79,6 +82,24 @@ def rand_profile(rng, n, nb):
     if c < 0.25:      # sparse
         return [f32(rng.uniform(0, 2)) if rng.random() < 0.3 else 0.0 for _ in range(n * nb)]
     return [f32(rng.uniform(-0.5, 2.0)) for _ in range(n * nb)]
+
+
+def rand_impedance(rng, N):
+    """(list of (re, im), kind).  Half of the cases have EXACT zeros: an impedance file shorter than the padded
+    grid (zero from some index on), sparse zeros, real or imaginary part zero, Z(0) = 0 (the built-in models)"""
+    z = [(f32(rng.uniform(0.25, 2.0)), f32(rng.uniform(-1.0, 1.0))) for _ in range(N)]
+    c = rng.random()
+    h = max(1, N // 2)
+    if c < 0.5:
+        return z, "dense"
+    if c < 0.65:
+        k = rng.randint(1, h)
+        return [zz if i < k else (0.0, 0.0) for i, zz in enumerate(z)], "short"
+    if c < 0.8:
+        return [(0.0, 0.0) if rng.random() < 0.35 else zz for zz in z], "sparse"
+    if c < 0.9:
+        return [((0.0, zz[1]) if rng.random() < 0.3 else (zz[0], 0.0) if rng.random() < 0.3 else zz) for zz in z], "part-zero"
+    return [(0.0, 0.0)] + z[1:], "z0"
 
 
 def gen_case(rng, cid, Ns, maxlen=12, force=None):
@@ -122,7 +143,7 @@ def gen_case(rng, cid, Ns, maxlen=12, force=None):
             break
     else:
         n, nb, buckets, sp = 2, 1, [0], 0
-    z = [(f32(rng.uniform(0.25, 2.0)), f32(rng.uniform(-1.0, 1.0))) for _ in range(N)]
+    z, zkind = rand_impedance(rng, N)
     L = rng.randint(1, maxlen)
     ops = []
     prev = None
@@ -139,7 +160,15 @@ def gen_case(rng, cid, Ns, maxlen=12, force=None):
         ops = ops[:-2] + [("C", 0.0, ops[-1][2]), ("W", 0.0, ops[-1][2])]
     if force == "stale":
         ops = ops[:-2] + [(rng.choice("PW"), 0.0, ops[-1][2]), ("C", 0.0, ops[-1][2])]
-    return HistCase(cid, n, nb, N, sp, buckets, z, ops, force or "random")
+    if zkind != "dense" and force is None and rng.random() < 0.6:
+        # wake histories with several different profiles: a harmonic whose impedance is exactly zero must be
+        # rewritten (with zero) on every call - the inverse transform uses its input as scratch
+        ops = [("W" if rng.random() < 0.8 else k, c, rand_profile(rng, n, nb) if i else p) for i, (k, c, p) in enumerate(ops)]
+        if len(ops) < 2:
+            ops.append(("W", 0.0, rand_profile(rng, n, nb)))
+    c = HistCase(cid, n, nb, N, sp, buckets, z, ops, force or "random")
+    c.zkind = zkind
+    return c
 
 
 def gen_cases(ctx, count, Ns, maxlen=12, prefix="h"):
@@ -158,6 +187,7 @@ def gen_cases(ctx, count, Ns, maxlen=12, prefix="h"):
         ctx.count("len:%s" % ("1" if len(c.ops) == 1 else "2-4" if len(c.ops) <= 4 else "5-12" if len(c.ops) <= 12 else ">12"))
         if c.overlapping():
             ctx.count("overlapping-buckets")
+        ctx.count("impedance:" + getattr(c, "zkind", "dense"))
     return cases
 
 
@@ -176,10 +206,17 @@ def _parse(out, model):
         elif cur is None:
             continue
         elif p[0] == "op":
-            d = dict(k=int(p[1]), kind=p[2], same=p[4] == "1")
-            if not d["same"] and len(p) > 5:
-                d["diff"] = dict(buffer=p[5], index=int(p[6]), got=p[7], expected=p[8])
+            if p[3] == "same":
+                d = dict(k=int(p[1]), kind=p[2], same=p[4] == "1")
+                q = p[5:]
+            else:       # hist2: op <k> <obj> <kind> same ...
+                d = dict(k=int(p[1]), obj=int(p[2]), kind=p[3], same=p[5] == "1")
+                q = p[6:]
+            if not d["same"] and len(q) >= 4:
+                d["diff"] = dict(buffer=q[0], index=int(q[1]), got=q[2], expected=q[3])
             cur.append(d)
+        elif p[0] in ("gen", "other", "self", "ptr"):
+            cur[-1][p[0]] = p[1] == "1"
         elif p[0] == "bp":
             cur[-1]["bp"] = [parse_q(t) for t in p[1:]] if model else [parse_c(t) for t in p[1:]]
         elif p[0] == "B":
@@ -196,11 +233,28 @@ def run_impl(tg, cases, timeout=1200):
     return _parse(out, False)
 
 
+def _run_model_texts(texts, what, timeout=1200, workers=6):
+    """the extracted model has no machine integers: spread the cases over a few processes"""
+    from concurrent.futures import ThreadPoolExecutor
+    chunks = [texts[i::workers] for i in range(workers)]
+    chunks = [c for c in chunks if c]
+
+    def one(ch):
+        rc, out, err = run_driver(vp_coq.model_path("hist"), "".join(ch), timeout=timeout)
+        if rc != 0:
+            raise RuntimeError("model_hist (%s) failed rc=%d: %s" % (what, rc, err[-2000:]))
+        return _parse(out, True)
+    res = {}
+    with ThreadPoolExecutor(max_workers=workers) as ex:
+        for r in ex.map(one, chunks):
+            res.update(r)
+    return res
+
+
 def run_model(cases, fixed=True, timeout=1200):
-    rc, out, err = run_driver(vp_coq.model_path("hist"), "".join(c.model_text(fixed) for c in cases), timeout=timeout)
-    if rc != 0:
-        raise RuntimeError("model_hist failed rc=%d: %s" % (rc, err[-2000:]))
-    return _parse(out, True)
+    for k, c in enumerate(cases):
+        c.gencheck = (k % 5 == 0 and c.N <= 64) or len(cases) <= 3
+    return _run_model_texts([c.model_text(fixed) for c in cases], "hist", timeout)
 
 
 def compare(c, impl, model):
@@ -233,6 +287,161 @@ def compare(c, impl, model):
                 dis.append(("footprint", dict(op=k, kind=i["kind"], buffer=b, cell=bad[0], impl=fi, model=fm)))
         if i["same"] != m["same"]:
             dis.append(("verdict", dict(op=k, kind=i["kind"], impl_same_as_fresh=i["same"], model_same_as_fresh=m["same"])))
+        if m.get("gen") is False:
+            dis.append(("generated-program", dict(op=k, kind=i["kind"], what="the programs of Gen_EField.v and the hand model give different states")))
         if len(dis) > 6:
             break
     return dis, bprobe
+
+
+# ---------------------------------------------------------------------------------- two objects, getters
+
+GETTERS = ["getWakePotentials", "getPaddedWakePotential", "getPaddedBunchProfiles", "getCSRSpectrum", "getCSRPower"]
+
+
+class Hist2Case:
+    """two field objects on one PhaseSpace; ops: (obj 1|2, kind W|P|C, cutoff, profile) or (obj, 'G', getter index)"""
+    def __init__(self, cid, n, nb, buckets, objs, ops, note=""):
+        self.cid, self.n, self.nb, self.buckets = cid, n, nb, list(buckets)
+        self.objs = objs          # two dicts: N, sp, full, z
+        self.ops, self.note = list(ops), note
+
+    def impl_text(self):
+        s = ["hist2 %s %d %d %s" % (self.cid, self.n, self.nb, " ".join(map(str, self.buckets)))]
+        for o in self.objs:
+            s.append("%d %d %d" % (o["N"], o["sp"], 1 if o["full"] else 0))
+            s.append(" ".join("%s %s" % (fhex(re), fhex(im)) for re, im in o["z"]))
+        s.append(str(len(self.ops)))
+        for op in self.ops:
+            if op[1] == "G":
+                s.append("%d G %d" % (op[0], op[2]))
+            else:
+                s.append("%d %s %s %s" % (op[0], op[1], fhex(op[2]), " ".join(fhex(v) for v in op[3])))
+        return "\n".join(s) + "\n"
+
+    def model_text(self):
+        s = ["hist2 %s %d %d %s %d %d %d %d %d" % (self.cid, self.n, self.nb, " ".join(map(str, self.buckets)),
+                                                  self.objs[0]["N"], self.objs[0]["sp"], self.objs[1]["N"], self.objs[1]["sp"], len(self.ops))]
+        for op in self.ops:
+            if op[1] == "G":
+                s.append("%d G %d" % (op[0], op[2]))
+            else:
+                s.append("%d %s %s %s" % (op[0], op[1], qtok(Fraction(op[2])), " ".join(qtok(Fraction(v)) for v in op[3])))
+        return "\n".join(s) + "\n"
+
+    def replay(self):
+        return dict(kind="hist2", id=self.cid, n=self.n, nb=self.nb, buckets=self.buckets,
+                    objects=[dict(N=o["N"], spacing=o["sp"], full=o["full"], impedance=[[fhex(a), fhex(b)] for a, b in o["z"]]) for o in self.objs],
+                    ops=[dict(obj=op[0], op="G", getter=GETTERS[op[2]]) if op[1] == "G" else
+                         dict(obj=op[0], op=op[1], cutoff=fhex(op[2]), profile=[fhex(v) for v in op[3]]) for op in self.ops],
+                    note=self.note)
+
+    @staticmethod
+    def from_replay(d):
+        objs = [dict(N=o["N"], sp=o["spacing"], full=o["full"], z=[(float.fromhex(a), float.fromhex(b)) for a, b in o["impedance"]])
+                for o in d["objects"]]
+        ops = [(o["obj"], "G", GETTERS.index(o["getter"])) if o["op"] == "G" else
+               (o["obj"], o["op"], float.fromhex(o["cutoff"]), [float.fromhex(v) for v in o["profile"]]) for o in d["ops"]]
+        return Hist2Case(d["id"], d["n"], d["nb"], d["buckets"], objs, ops, d.get("note", ""))
+
+    def describe(self):
+        return dict(id=self.cid, n=self.n, nb=self.nb, buckets=self.buckets,
+                    objects=[dict(N=o["N"], spacing=o["sp"], full=o["full"]) for o in self.objs],
+                    history=" ".join("%d%s" % (op[0], op[1] if op[1] != "G" else "g%d" % op[2]) for op in self.ops), note=self.note)
+
+    def with_ops(self, ops, cid=None):
+        return Hist2Case(cid or self.cid, self.n, self.nb, self.buckets, self.objs, ops, self.note)
+
+
+def gen_case2(rng, cid, Ns, maxlen=14):
+    nb = rng.choice([1, 2, 2, 3])
+    for _ in range(300):
+        same_len = rng.random() < 0.35          # two objects of the same transform length share FFTW wisdom/algorithm
+        N1 = rng.choice(Ns)
+        N2 = N1 if same_len else rng.choice(Ns)
+        n = rng.randint(2, max(2, min(10, min(N1, N2) // 2)))
+        buckets = rng.sample(range(0, nb + 2), nb)
+        if rng.random() < 0.5:
+            buckets.sort(reverse=True)          # the order main() produces
+        mb = max(buckets)
+        sps = []
+        for N in (N1, N2):
+            hi = (N - n) // mb if mb else N
+            sps.append(rng.randint(0 if mb == 0 else 1, max(1, hi)) if hi >= 1 else None)
+        if None in sps:
+            continue
+        # the program's radiation field: spacing 0, built without the wake transform
+        rdtn = rng.random() < 0.5
+        if rdtn:
+            sps[0] = 0
+        if all(mb * sp + n <= N for sp, N in zip(sps, (N1, N2))):
+            break
+    else:
+        n, nb, buckets, N1, N2, sps, rdtn = 2, 1, [0], Ns[0], Ns[0], [0, 0], False
+    objs = []
+    for i, (N, sp) in enumerate(zip((N1, N2), sps)):
+        z, zk = rand_impedance(rng, N)
+        objs.append(dict(N=N, sp=sp, full=not (rdtn and i == 0 and rng.random() < 0.7), z=z, zkind=zk))
+    L = rng.randint(2, maxlen)
+    ops, prev = [], None
+    for k in range(L):
+        w = rng.choice([1, 2])
+        if rng.random() < 0.3:
+            g = rng.randrange(5)
+            ops.append((w, "G", g))
+            continue
+        kinds = "WPC" if objs[w - 1]["full"] else "PC"
+        kind = rng.choice(kinds)
+        cut = 0.0 if rng.random() < 0.5 else f32(rng.uniform(1e7, 2e9))
+        p = list(prev) if (prev is not None and rng.random() < 0.25) else rand_profile(rng, n, nb)
+        prev = p
+        ops.append((w, kind, cut if kind == "C" else 0.0, p))
+    return Hist2Case(cid, n, nb, buckets, objs, ops, "two-objects" + ("/rdtn" if rdtn else ""))
+
+
+def gen_cases2(ctx, count, Ns, maxlen=14, prefix="d"):
+    cases = []
+    for i in range(count):
+        c = gen_case2(ctx.rng, "%s%d" % (prefix, i), Ns, maxlen)
+        cases.append(c)
+        ctx.count("two-objects:" + ("same-length" if c.objs[0]["N"] == c.objs[1]["N"] else "different-length"))
+        ctx.count("two-objects:nb=%d" % c.nb)
+        if not c.objs[0]["full"]:
+            ctx.count("two-objects:object-1-without-wake-transform")
+        ctx.count("two-objects:getter-calls", sum(1 for o in c.ops if o[1] == "G"))
+    return cases
+
+
+def run_impl2(tg, cases, timeout=1200):
+    rc, out, err = run_driver(tg["impl_hist"], "".join(c.impl_text() for c in cases), env=vp_build.xdg_env(), timeout=timeout)
+    if rc != 0:
+        raise RuntimeError("impl_hist (hist2) failed rc=%d: %s" % (rc, err[-2000:]))
+    return _parse(out, False)
+
+
+def run_model2(cases, timeout=1200):
+    return _run_model_texts([c.model_text() for c in cases], "hist2", timeout)
+
+
+def compare2(c, impl, model):
+    """two-object case: padded buffer exactly, the same-as-fresh verdicts, the other object untouched, getters pure"""
+    dis = []
+    if len(impl) != len(c.ops) or len(model) != len(c.ops):
+        return [("length", dict(impl=len(impl), model=len(model), ops=len(c.ops)))]
+    for k, (i, m) in enumerate(zip(impl, model)):
+        if i["bp"] != m["bp"]:
+            N = c.objs[i["obj"] - 1]["N"]
+            j = next(t for t in range(N) if i["bp"][t] != m["bp"][t])
+            dis.append(("padded-profile", dict(op=k, obj=i["obj"], kind=i["kind"], cell=j, impl=str(i["bp"][j]), model=str(m["bp"][j]))))
+        if i["same"] != m["same"]:
+            dis.append(("verdict", dict(op=k, obj=i["obj"], kind=i["kind"], impl_same_as_fresh=i["same"], model_same_as_fresh=m["same"])))
+        if i.get("other") != m.get("other"):
+            dis.append(("other-object", dict(op=k, obj=i["obj"], kind=i["kind"], impl_untouched=i.get("other"), model_untouched=m.get("other"))))
+        if i["kind"] == "G":
+            if i.get("self") != m.get("self"):
+                dis.append(("getter-pure", dict(op=k, obj=i["obj"], impl_unchanged=i.get("self"), model_unchanged=m.get("self"))))
+            if not i.get("ptr"):
+                dis.append(("getter-buffer", dict(op=k, obj=i["obj"], what="the getter does not return the buffer the model names")))
+        if len(dis) > 6:
+            break
+    return dis
